@@ -940,7 +940,7 @@ def run(ctx):
                 'vartype, bounds, constraints, record fields, info at every level).  A case = one script on one side of one call; '
                 'non-trivial = at least one edit applied')
     lines, expect, meta = [], [], []
-    nrounds = ctx.scale(30, 500)       # r8f: quick tier trimmed (was 60): every round runs every call of every class; volume lives in the thorough tier
+    nrounds = ctx.scale(30, 220)       # r8f: quick tier trimmed (was 60): every round runs every call of every class; volume lives in the thorough tier (500 rounds took 27.5 min with the r8f generators: 220)
     nscripts = ctx.scale(2, 4)
     for _ in range(nrounds):
         for kind, gen in (('bqm', gen_bqm), ('qm', gen_qm), ('cqm', gen_cqm)):
@@ -1017,7 +1017,7 @@ def run(ctx):
     missing = [n for n in FWD_USED if n not in forwarding_names()]
     if missing:
         ctx.fail('correspondence', 'forwarding_method list', 'BinaryQuadraticModel', f'{missing} are no longer @forwarding_method: the cache model routes `fwd` do not describe them')
-    for _ in range(ctx.scale(200, 4000)):
+    for _ in range(ctx.scale(200, 3000)):
         check_pycache(ctx, r, lines, expect, meta)
     got = run_driver('storedriver', lines)
     ctx.corr_lines += len(lines)
